@@ -33,6 +33,7 @@ type Seg struct {
 	Ack     uint32  `json:"ack"`
 	Flags   int     `json:"flags"`
 	Payload hx.B    `json:"payload"`
+	Pad     bool    `json:"pad,omitempty"` // the frame is zero-padded to the 60-byte Ethernet minimum
 }
 
 type Ev struct {
@@ -95,7 +96,13 @@ func buildFrame(s Seg) []byte {
 	copy(eth[6:], macOf(s.SIP))
 	eth[12] = 8
 	fr := append(eth, iph...)
-	return append(fr, tcp...)
+	fr = append(fr, tcp...)
+	if s.Pad {
+		for len(fr) < 60 {
+			fr = append(fr, 0)
+		}
+	}
+	return fr
 }
 
 type capture struct {
@@ -138,13 +145,17 @@ type client struct {
 	srvFinSeen   bool
 	ackedSrvFin  bool
 	pshFirst     bool // the first data segment is pushed too: the reader runs (and closes) while data is still coming
+	routed       bool // the peer has no ARP entry: it is reached through the first route that contains it
+	padded       bool // its frames are zero-padded to the Ethernet minimum, as a real NIC sends them
+	dataOnAck    bool // the ACK that completes the handshake already carries the first data segment
+	hsAck        bool // the handshake-completing ACK has been sent
 }
 
 var me = [4]byte{127, 0, 0, 1}
 var decoded = map[int]bool{23: true, 80: true, 443: true, 139: true, 445: true, 1433: true, 6379: true, 9200: true}
 
 func (c *client) seg(flags int, payload []byte) Seg {
-	return Seg{SIP: c.sip, DIP: me, SPort: c.sport, DPort: c.dport, Seq: c.isn + 1 + c.sent, Ack: c.srvSeq, Flags: flags, Payload: payload}
+	return Seg{SIP: c.sip, DIP: me, SPort: c.sport, DPort: c.dport, Seq: c.isn + 1 + c.sent, Ack: c.srvSeq, Flags: flags, Payload: payload, Pad: c.padded}
 }
 
 // next returns the next segment of the script (nil when finished)
@@ -152,7 +163,7 @@ func (c *client) next() *Seg {
 	switch c.phase {
 	case 0:
 		c.phase = 1
-		s := Seg{SIP: c.sip, DIP: me, SPort: c.sport, DPort: c.dport, Seq: c.isn, Flags: fSYN}
+		s := Seg{SIP: c.sip, DIP: me, SPort: c.sport, DPort: c.dport, Seq: c.isn, Flags: fSYN, Pad: c.padded}
 		return &s
 	case 1:
 		c.phase = 2
@@ -169,6 +180,18 @@ func (c *client) next() *Seg {
 		if c.badAck {
 			s.Ack = c.srvSeq + 7
 			c.phase = 99
+			return &s
+		}
+		c.hsAck = true
+		if c.dataOnAck && len(c.segs) > 0 && !c.steer {
+			// always pushed: whether the reader goroutine, started by this very segment, finds
+			// unpushed data already in the ring or blocks first is a scheduling race inside the
+			// listener (both outcomes are the same once the data is pushed)
+			p := c.segs[0]
+			fl := fACK | fPSH
+			s = c.seg(fl, p)
+			c.sent += uint32(len(p))
+			c.idx = 1
 		}
 		return &s
 	case 2:
@@ -276,6 +299,8 @@ func parseOut(fr []byte) (flags int, seq, ack uint32, ipid int, ok bool) {
 
 var removed, removedWhileOthersActive, steered, samePortPairs int
 var eventMissed bool
+var lastHops [][2][]byte
+var routedPeers int
 var wrapAligned int
 
 // the 16-bit one's-complement sum of the ACK the listener will send for a data segment of
@@ -383,6 +408,9 @@ func runCase(r *hx.Rand, nconn int, tier string) ([]Step, string) {
 		c.ackFinFirst = !c.crossFin && r.Chance(1, 2)
 		c.finWithData = r.Chance(1, 4)
 		c.pshFirst = r.Chance(1, 3)
+		c.routed = r.Chance(1, 4)
+		c.padded = r.Chance(1, 3)
+		c.dataOnAck = r.Chance(1, 4)
 		c.steer = r.Chance(1, 2)
 		if c.steer {
 			var all []byte
@@ -406,9 +434,47 @@ func runCase(r *hx.Rand, nconn int, tier string) ([]Step, string) {
 			wrapAligned++
 		}
 		clients = append(clients, c)
-		arp = append(arp, canary.ARPEntry{IP: net.IPv4(c.sip[0], c.sip[1], c.sip[2], c.sip[3]), HardwareAddress: macOf(c.sip), Interface: "lo"})
+		if c.routed {
+			for _, e := range clients[:len(clients)-1] {
+				if e.sip == c.sip && !e.routed { // one peer, one way to reach it
+					c.routed = false
+				}
+			}
+		}
+		if !c.routed {
+			arp = append(arp, canary.ARPEntry{IP: net.IPv4(c.sip[0], c.sip[1], c.sip[2], c.sip[3]), HardwareAddress: macOf(c.sip), Interface: "lo"})
+		}
 	}
-	v, err := canary.NewVerifCanary("lo", arp, nil, cap)
+	// peers without an ARP entry are reached through the FIRST route that contains them: 10.0.0.0/8 via
+	// gateway 1, before the default route via gateway 2 (both gateways have ARP entries)
+	var routes canary.RouteTable
+	lastHops = nil
+	gw1, gw2 := [4]byte{10, 254, 0, 1}, [4]byte{10, 254, 0, 2}
+	for _, c := range clients {
+		if c.routed {
+			// an earlier non-routed client of the same address would have put it into the ARP cache
+			inARP := false
+			for _, e := range clients {
+				if e.sip == c.sip && !e.routed {
+					inARP = true
+				}
+			}
+			if inARP {
+				continue
+			}
+			lastHops = append(lastHops, [2][]byte{c.sip[:], macOf(gw1)})
+			routedPeers++
+		}
+	}
+	if len(lastHops) > 0 {
+		arp = append(arp, canary.ARPEntry{IP: net.IPv4(gw1[0], gw1[1], gw1[2], gw1[3]), HardwareAddress: macOf(gw1), Interface: "lo"},
+			canary.ARPEntry{IP: net.IPv4(gw2[0], gw2[1], gw2[2], gw2[3]), HardwareAddress: macOf(gw2), Interface: "lo"})
+		routes = canary.RouteTable{
+			{Interface: "lo", Gateway: net.IPv4(gw1[0], gw1[1], gw1[2], gw1[3]), Destination: net.IPNet{IP: net.IPv4(10, 0, 0, 0).To4(), Mask: net.CIDRMask(8, 32)}},
+			{Interface: "lo", Gateway: net.IPv4(gw2[0], gw2[1], gw2[2], gw2[3]), Destination: net.IPNet{IP: net.IPv4(0, 0, 0, 0).To4(), Mask: net.CIDRMask(0, 32)}},
+		}
+	}
+	v, err := canary.NewVerifCanary("lo", arp, routes, cap)
 	if err != nil {
 		hx.Fatal("NewVerifCanary: %v", err)
 	}
@@ -465,7 +531,7 @@ func runCase(r *hx.Rand, nconn int, tier string) ([]Step, string) {
 				removedWhileOthersActive++
 			}
 		}
-		expectReader := c.established && !c.readerDone && !decoded[c.dport] && (s.Flags&fPSH != 0 || s.Flags&fFIN != 0)
+		expectReader := (c.established || c.hsAck) && !c.readerDone && !decoded[c.dport] && (s.Flags&fPSH != 0 || s.Flags&fFIN != 0)
 		var evs []event.Event
 		if expectReader {
 			// generous: the wait only costs time when the event is really missing, and then once
@@ -516,7 +582,7 @@ func runCase(r *hx.Rand, nconn int, tier string) ([]Step, string) {
 			st.Fresh = [3]uint{nextKey, 0, 0}
 			nextKey++
 		}
-		if c.phase == 2 && s.Flags == fACK && !c.badAck && len(s.Payload) == 0 && !c.established {
+		if c.hsAck && !c.established {
 			c.established = true
 			time.Sleep(2 * time.Millisecond) // let the reader goroutine block in Read
 		}
@@ -572,7 +638,11 @@ func coqIPs(s string) string {
 	return hx.CoqBytes(ip)
 }
 
-func coqCase(id int, steps []Step) string {
+func coqCase(id int, steps []Step, hops [][2][]byte) string {
+	var hs []string
+	for _, h := range hops {
+		hs = append(hs, fmt.Sprintf("(%s, %s)", hx.CoqBytes(h[0]), hx.CoqBytes(h[1])))
+	}
 	var ops, obs []string
 	for _, st := range steps {
 		var fr []string
@@ -593,7 +663,7 @@ func coqCase(id int, steps []Step) string {
 			ops = append(ops, "OReader "+hx.CoqN(uint64(st.Key)))
 		}
 	}
-	return fmt.Sprintf("mkCase %s [0;0;0;0;0;0]%%N [127;0;0;1]%%N %s %s", hx.CoqN(uint64(id)), hx.CoqList(ops, "op"), hx.CoqList(obs, "sobs"))
+	return fmt.Sprintf("mkCase %s [0;0;0;0;0;0]%%N [127;0;0;1]%%N %s %s %s", hx.CoqN(uint64(id)), hx.CoqList(hs, "(bytes * bytes)"), hx.CoqList(ops, "op"), hx.CoqList(obs, "sobs"))
 }
 
 // ---- decoded ports: observation only ----
@@ -745,7 +815,12 @@ func main() {
 			dist["step:"+st.Kind]++
 			dist[fmt.Sprintf("frames-per-step:%d", len(st.Frames))]++
 		}
-		cases = append(cases, hx.Case{ID: i, Kind: "tcp", Input: steps, Obs: nil, Crash: crash, Coq: coqCase(i, steps)})
+		hops := lastHops
+		var hopsIn [][2]hx.B
+		for _, h := range hops {
+			hopsIn = append(hopsIn, [2]hx.B{hx.B(h[0]), hx.B(h[1])})
+		}
+		cases = append(cases, hx.Case{ID: i, Kind: "tcp", Input: map[string]interface{}{"next_hops": hopsIn, "steps": steps}, Obs: nil, Crash: crash, Coq: coqCase(i, steps, hops)})
 	}
 	decodedPart(o, r)
 	dist["checksum-steered-segments"] = steered
@@ -753,5 +828,6 @@ func main() {
 	dist["state-removed-while-others-active"] = removedWhileOthersActive
 	dist["peers-sharing-a-port-pair"] = samePortPairs
 	dist["first-ack-at-sequence-wrap"] = wrapAligned
+	dist["peers-reached-through-a-gateway"] = routedPeers
 	hx.Write(o, "C14", "tcp", "From HT Require Import Common.Bytes C14.Model C14.Check.", "case", cases, dist, nil, 40)
 }
